@@ -8,6 +8,6 @@ CONSTANTS
     Mode = "trace"
     Depth = 0
 CONSTRAINT HighWater
-INVARIANTS NeverEndedTwice EndedExactlyOnce OnlyStartedSpansEnd ErrorIffFailed ParentedOnCaller CountedOnceWithStatus NeverCountedTwice LedgerMatchesRequests
+INVARIANTS NeverEndedTwice EndedExactlyOnce OnlyStartedSpansEnd NonRecordingLeftAlone ErrorIffFailed ParentedOnCaller CountedOnceWithStatus NeverCountedTwice LedgerMatchesRequests
 POSTCONDITION ReportHighWater
 CHECK_DEADLOCK FALSE
